@@ -262,3 +262,5 @@ func replayCapacity(c *vk.Ctx) {
 	}
 	fmt.Println("result: conforms")
 }
+
+func uintptrOf(b []byte) uintptr { return uintptr(unsafe.Pointer(&b[0])) }
